@@ -27,7 +27,7 @@ DECIDING = ["word_searches", "planted_tokens_checked"]
 
 NONHEX = "ghijklmnopqrstuvwxyz"
 FIXED_WORDS = ["sea", "seattle", "chelsea", "zurich", "gotham", "x.y", "zz+w", "r|s", "kiwi", "ox", "intentionet",
-               "north", "northwest", "west", "g0th", "m(x)z", "p[q]r", "t*t", "w?w", "h^h", "k$k", "j\\j", "y{2}z"]
+               "north", "northwest", "west", "g0th", "gro\xdfmann", "m\xfcnchen", "z\xfcrich", "stra\xdfe-gw", "\u0142\xf3d\u017a-pop", "m(x)z", "p[q]r", "t*t", "w?w", "h^h", "k$k", "j\\j", "y{2}z"]
 PREFIXES = ["", "", "", "(", "rtr-", "01", "\"", "[", "10.", "_", "é", "x", "<", "un"]
 SUFFIXES = ["", "", "", ")", "-gw", "02", "\"", "]", ".1", "_", ";", ":", ",", "z", "s"]
 
